@@ -319,6 +319,7 @@ type VC struct {
 	litResults  map[*ast.FuncLit][]*types.Var
 	odSeen      map[string]bool // opaque-define symbols whose axiom is already among the base facts
 	callCovered map[string]bool // callees whose contract consistency was probed in this function
+	unrollStates int            // states created by the unrolled (counterexample-search) execution
 	usedLoops   map[int]bool
 	usedSpecs   map[string]bool
 	loopOrd     map[ast.Node]int
